@@ -5,6 +5,17 @@
 from jaqalpaq.error import JaqalError
 
 
+def _validate_count(count, what):
+    """A loop or iteration count must be an integer: reject a float, and a
+    constant or parameter declared to be one."""
+    from .parameter import AnnotatedValue, ParamType
+
+    if isinstance(count, float) or (
+        isinstance(count, AnnotatedValue) and count.kind == ParamType.FLOAT
+    ):
+        raise JaqalError(f"{what} {count} is not an integer")
+
+
 class BlockStatement:
     """
     Represents a Jaqal block statement; either sequential or parallel. Can contain other
@@ -27,6 +38,7 @@ class BlockStatement:
         self._iterations = iterations
         if not self._subcircuit and self._iterations != 1:
             raise JaqalError("Only subcircuits may have iterations != 1")
+        _validate_count(iterations, "Subcircuit iteration count")
         if statements is None:
             self._statements = []
         else:
@@ -97,6 +109,7 @@ class LoopStatement:
 
     def __init__(self, iterations, statements=None):
         self._iterations = iterations
+        _validate_count(iterations, "Loop count")
         if statements is None:
             self._statements = BlockStatement()
         else:
